@@ -927,7 +927,11 @@ func (vm *VM) execBuildObject() error {
 			return fmt.Errorf("object key must be a string")
 		}
 
-		obj[keyStr.Val] = val
+		// Fields are popped last to first. When a literal repeats a key the
+		// later field wins (as in the interpreter), so keep what is stored.
+		if _, later := obj[keyStr.Val]; !later {
+			obj[keyStr.Val] = val
+		}
 	}
 
 	vm.Push(ObjectValue{Val: obj})
